@@ -165,6 +165,11 @@ class Extractor:
             if not body and not hdr:
                 return []
             lf = normal_for(f, i)
+            if lf is None:
+                from loops import iterator_for
+                il = iterator_for(f, i, R)
+                if il:
+                    return [('loop', {(substitute(il['range'], subst) + '.size',): 1}, il['name'], body, n['id'], f)]
             if lf is None or lf['op'] != '<':
                 return [('loop', None, None, hdr + body, n['id'], f)]
             rep = P.add(P.poly(f, lf['bound'], R), P.poly(f, lf['start'], R), -1)
@@ -217,6 +222,15 @@ class Extractor:
             if a or b:
                 return c + [('alt', substitute(R.render(n['cond']), subst), a, b, n['id'], f)]
             return c
+        if k == 'CallExpr' and n.get('callee', {}).get('qname') == 'std::for_each':
+            from paths import lambda_params
+            lp = [v for v in lambda_params(f).values() if v[2] == n['id']]
+            if len(lp) == 1:
+                body = self.stmt(f, R, lp[0][4], subst, depth)
+                if not body:
+                    return out
+                rep = subst_poly(P.poly(f, lp[0][7], R), subst) if lp[0][7] is not None else {(substitute(R.render(lp[0][0]), subst) + '.size',): 1}
+                return out + [('loop', rep, lp[0][1], body, n['id'], f)]
         if k in CALL_KINDS and 'callee' in n:
             c = n['callee']
             obj = f.call_obj(n)
@@ -227,6 +241,10 @@ class Extractor:
                 for a in args:
                     out.extend(self.expr_items(f, R, a, subst, depth))
                 if item[0] == 'io' and item[1].get('k') == 'write' and item[1].get('srck') == 'other' and getattr(self, '_gather', None) is None:
+                    ve = self.vector_elements(f, R, n, subst, item[1])
+                    if ve is not None:
+                        out.extend(ve)
+                        return out
                     ga = self.gather_analysis(f, R, n, subst, depth)
                     if ga is not None:
                         item[1]['gather'] = {k: v for k, v in ga.items() if k != 'tree'}
@@ -321,6 +339,46 @@ class Extractor:
             if not ok:
                 return None
         return d, self.ELEM[tm.group(1)]
+
+    def vector_elements(self, f, R, n, subst, it):
+        """write(X.data() | &X[0], K * sizeof(elem)) with a constant K <= 64 on a std::vector<scalar> X
+        that is not a local gather buffer: K element-sized writes of X[0] .. X[K-1]"""
+        args = f.call_args(n)
+        m = f.nodes[f.strip(args[0], 'all')]
+        hops = 0
+        while m['k'] == 'DeclRefExpr' and m['decl'].get('dk') == 'local' and m['decl'].get('tc') == 'p' and hops < 3 and local_init(f, m['decl']['id']) is not None and \
+                m['decl']['id'] in R.single_def_locals():
+            m = f.nodes[f.strip(local_init(f, m['decl']['id']), 'all')]
+            hops += 1
+        obj = None
+        if m['k'] == 'CXXMemberCallExpr' and m['callee']['name'] == 'data' and m['callee'].get('classq', '').startswith('std::vector'):
+            obj = m.get('obj')
+        elif m['k'] == 'UnaryOperator' and m['op'] == '&':
+            e = f.nodes[f.strip(m['ch'][0], 'all')]
+            if e['k'] == 'CXXOperatorCallExpr' and e.get('op') == '[]' and f.nodes[f.strip(e['args'][1], 'all')].get('cv') == '0':
+                obj = e['args'][0]
+        if obj is None:
+            return None
+        o = f.nodes[f.strip(obj, 'noop')]
+        tm = re.match(r'^(?:const )?std::vector<([\w ]+)>$', o.get('t', ''))
+        if not tm or tm.group(1) not in self.ELEM:
+            return None
+        kind, _ = root_of(f, obj)
+        if kind not in ('this', 'param'):
+            return None
+        esz, tc, tw = self.ELEM[tm.group(1)]
+        w = it.get('width')
+        if w is None or not (set(w.keys()) <= {()}):
+            return None
+        tot = w.get((), 0)
+        if tot <= 0 or tot % esz or tot // esz > 64:
+            return None
+        base = substitute(R.render(obj), subst)
+        out = []
+        for kk in range(tot // esz):
+            out.append(('io', {'k': 'write', 'node': n['id'], 'fn': f, 'where': f.loc(n['id']), 'srck': 'object', 'src': '%s[%d]' % (base, kk), 'src_tc': tc, 'src_tw': tw,
+                               'src_node': obj, 'width': P.const(esz), 'width_alts': [P.const(esz)], 'from_vector': (base, tot // esz)}))
+        return out
 
     def gather_analysis(self, f, R, n, subst, depth):
         """the write call n emits a local buffer that was filled by appends: the tree of those appends
